@@ -7,5 +7,6 @@ CONSTANTS
   MaxLen = 5
   MaxDepth = 2
   CheckDev = {"flow_no_frame"}
+  FreshOnly = FALSE
 INVARIANTS LawsHold
 CHECK_DEADLOCK FALSE
